@@ -140,7 +140,31 @@ func nodeRefs(root func() *E, setRoot func(*E)) []nodeRef {
 func nest(bad *E, rng *rand.Rand) (*E, string) {
 	path := ""
 	for k := rng.Intn(4); k > 0; k-- {
-		switch rng.Intn(8) {
+		switch rng.Intn(20) {
+		case 8:
+			bad, path = Call("isnull", bad), path+"/isnull"
+		case 9:
+			bad, path = Call("isnotnull", bad), path+"/isnotnull"
+		case 10:
+			bad, path = Call("tolower", bad), path+"/tolower"
+		case 11:
+			bad, path = Call("toupper", bad), path+"/toupper"
+		case 12:
+			bad, path = Call("countif", bad), path+"/countif"
+		case 13:
+			bad, path = Call("iff", bad, Num("1"), Num("0")), path+"/iff-cond"
+		case 14:
+			bad, path = Call("iif", Name("true"), Num("1"), bad), path+"/iif-else"
+		case 15:
+			bad, path = Call("strcat", bad), path+"/strcat1"
+		case 16:
+			bad, path = Un("-", bad), path+"/sign"
+		case 17:
+			bad, path = Idx(bad, Num("1")), path+"/index-base"
+		case 18:
+			bad, path = In(bad, Num("1"), Num("2")), path+"/in-lhs"
+		case 19:
+			bad, path = Bin([]string{"==", "and", "=~", "<", "*"}[rng.Intn(5)], Num("1"), bad), path+"/binary-rhs"
 		case 0:
 			bad, path = Call("f", bad, Num("1")), path+"/call"
 		case 1:
